@@ -57,8 +57,7 @@ Do(e, t2, p2, c2) ==
   LET pre == S(now, ps, cache) post == S(t2, p2, c2) IN
   /\ now' = t2 /\ ps' = p2 /\ cache' = c2
   /\ acc' = C15AccNext(acc, pre, e, post)
-  /\ C15(pre, e, post, acc, 0)
-  /\ C14Pause(pre, e, post, 0)
+  /\ (C15(pre, e, post, acc, 0) /\ C14Pause(pre, e, post, 0)) = TRUE
   /\ sid' = TLCGet(1)
   /\ TLCSet(1, TLCGet(1) + 1)
   /\ PrintT("EDGE " \o ToString(sid) \o " " \o ToString(TLCGet(1) - 1) \o " " \o
